@@ -169,7 +169,7 @@ def h5_export(sc, d, rep, tier, export=True, invs=None):
     for name, alpha, maxlen, prefixes, ctxs in h5_configs(tier):
         res = vlib.tlc_mc(sc, d, "Html5", "Html5_" + name, {
             "Alphabet": tla_set(alpha), "MaxLen": maxlen,
-            "Prefixes": "{" + ", ".join(tla_seq(p) for p in prefixes) + "}",
+            "Openers": "{" + ", ".join(tla_seq(p) for p in prefixes) + "}",
             "CtxSet": tla_set(list(ctxs)), "DoExport": "TRUE" if export else "FALSE"},
             invariants=invs or H5_INVS, properties=["StepVariant"], timeout=3000)
         if res.violated:
@@ -273,4 +273,278 @@ def c07(tier, sc):
     rep.cov["evaluations"] = len(beh) + ntr
     rep.assumptions += ["specification written from the algorithm; named port deviations (DESIGN 7.2) are part of it",
                         "VerifH5Tokens/VerifXSSCtx drive the same next()/isXSS code the public API runs"]
+    return rep.finish()
+
+
+# ---------------------------------------------------------------------------
+# XssProps runs (C02 C11 C13 C15 C17)
+
+def xss_props(sc, d, rep, name, mode, alphabet, maxlen, prefixes=([],), templates=(), timeout=3000):
+    res = vlib.tlc_mc(sc, d, "XssProps", "XP_" + name, {
+        "Alphabet": tla_set(alphabet), "MaxLen": maxlen,
+        "Openers": "{" + ", ".join(tla_seq(p) for p in prefixes) + "}",
+        "Templates": "{" + ", ".join(tla_seq(t) for t in templates) + "}",
+        "Mode": '"%s"' % mode, "DoExport": "TRUE"},
+        invariants=["Prop", "Export"], extra=["-continue"], timeout=timeout)
+    if "states generated" not in res.out:
+        raise ToolFailure("TLC failed on XssProps/%s:\n%s" % (name, res.out[-3000:]))
+    rep.add_tlc("XssProps/" + name, res)
+    got = res.printed()
+    nviol = len(re.findall(r"Invariant Prop is violated", res.out))
+    rep.part("XssProps/" + name, mode=mode, alphabet=show(alphabet), maxlen=maxlen, prefixes=[show(p) for p in prefixes],
+             templates=len(templates), cases=len(got), model_counterexamples=nviol)
+    if nviol:
+        rep.notes.append("model_counterexample: XssProps/%s Prop violated on the specification in %d states" % (name, nviol))
+    return got
+
+
+def xss_templates(maxlen=60):
+    t = [x for x in vgen.corpus("xss.txt") if len(x) <= maxlen]
+    t += [vgen.b(i) for _, i, _ in vgen.fixtures("html5") if 0 < len(i) <= maxlen]
+    return list(vgen.dedup(t))
+
+
+def api_all(sc, vh, inputs):
+    """Real IsXSS + per-context verdicts for each input (list of byte lists)."""
+    return vlib.harness_map(sc, vh, "xss-api", [{"in": x} for x in inputs])
+
+
+def bad_result(r):
+    return r is None or "crash" in r or "hang" in r or r.get("panic")
+
+
+@check("C11")
+def c11(tier, sc):
+    rep = Report("C11", tier, "model_checking")
+    vh = build_harness(sc)
+    tfile, _ = gen_tables(sc, vh)
+    d = stage_specs(sc, "c11", [tfile])
+    big = tier == "thorough"
+    S = vgen.b
+    tmpl = xss_templates()
+    alpha = S("<>/='aX &#;!-")
+    cases = xss_props(sc, d, rep, "case", "case", alpha, 5 if big else 4, templates=tmpl)
+    # real code: every variant must give the same IsXSS verdict as the base input
+    flat = []
+    for c in cases:
+        flat.append(c["in"])
+        flat += c["variants"]
+    res = api_all(sc, vh, flat)
+    k = 0
+    npairs = 0
+    for c in cases:
+        base = res[k]
+        for j, v in enumerate(c["variants"]):
+            r = res[k + 1 + j]
+            npairs += 1
+            if bad_result(base) or bad_result(r):
+                continue          # totality is C02's business
+            if r["xss"] != base["xss"]:
+                rep.violation("IsXSS(%r)=%s but IsXSS(%r)=%s (case re-assignment)" % (show(c["in"]), base["xss"], show(v), r["xss"]),
+                              {"kind": "xss.pair", "rel": "case", "a": c["in"], "b": v})
+        k += 1 + len(c["variants"])
+    rep.part("case.real", bases=len(cases), pairs=npairs)
+    # NUL inside names, per context
+    ncases = xss_props(sc, d, rep, "nul", "nul", S("<>/='a \x00="), 5 if big else 4, templates=tmpl)
+    items = []
+    meta = []
+    for c in ncases:
+        pos = c["pos"]
+        for ctx in range(5):
+            pl = pos[str(ctx)] if isinstance(pos, dict) else pos[ctx]
+            if not pl:
+                continue
+            items.append({"in": c["in"], "ctx": ctx})
+            meta.append(("base", c["in"], ctx, None))
+            for p in pl:
+                w = c["in"][:p] + [0] + c["in"][p:]
+                items.append({"in": w, "ctx": ctx})
+                meta.append(("ins", c["in"], ctx, p))
+    res = vlib.harness_map(sc, vh, "xss-toks", items)
+    base = None
+    nn = skipped = 0
+    for m, r in zip(meta, res):
+        if m[0] == "base":
+            base = r
+            continue
+        if bad_result(base) or bad_result(r):
+            continue
+        # premise on the code's own tokens: p strictly inside a tag-name / attribute-name token
+        p = m[3]
+        inside = any(t[0] in (1, 6) and t[1] < p < t[1] + t[2] for t in base["toks"])
+        if not inside:
+            skipped += 1
+            continue
+        nn += 1
+        if r["xss"] != base["xss"]:
+            w = m[1][:p] + [0] + m[1][p:]
+            rep.violation("context %d verdict %s for %r but %s with NUL inserted at %d" % (m[2], base["xss"], show(m[1]), r["xss"], p),
+                          {"kind": "xss.pair", "rel": "nul", "ctx": m[2], "a": m[1], "b": w})
+    rep.part("nul.real", insertions=nn, premise_not_met_on_real_tokens=skipped)
+    rep.cov["traces_validated_against_impl"] = npairs + nn
+    rep.cov["evaluations"] = npairs + nn
+    for c in cases[:2]:
+        rep.sample({"in": show(c["in"]), "variants": [show(v) for v in c["variants"][:3]]})
+    for c in ncases[-2:]:
+        rep.sample({"in": show(c["in"]), "nul_positions_per_ctx": c["pos"]})
+    rep.assumptions += ["relation checked real-vs-real; the specification only enumerates the pairs and predicts"]
+    return rep.finish()
+
+
+@check("C13")
+def c13(tier, sc):
+    rep = Report("C13", tier, "model_checking")
+    vh = build_harness(sc)
+    tfile, _ = gen_tables(sc, vh)
+    d = stage_specs(sc, "c13", [tfile])
+    big = tier == "thorough"
+    S = vgen.b
+    tmpl = xss_templates(80)
+    cases = xss_props(sc, d, rep, "embed", "embed", S("<>/='\"` a=x!-"), 5 if big else 4, templates=tmpl)
+    flat = []
+    for c in cases:
+        flat.append(c["in"])
+        flat += c["embeds"]
+        flat += c["prefixed"]
+    res = api_all(sc, vh, flat)
+    k = 0
+    nrel = 0
+    for c in cases:
+        base = res[k]
+        emb = res[k + 1:k + 5]
+        pre = res[k + 5:k + 5 + len(c["prefixed"])]
+        k += 5 + len(c["prefixed"])
+        if bad_result(base):
+            continue
+        nrel += 1
+        if base["xss"] != any(base["ctx"]):
+            rep.violation("IsXSS(%r)=%s but contexts say %s" % (show(c["in"]), base["xss"], base["ctx"]),
+                          {"kind": "xss.or", "a": c["in"]})
+        for ctx in range(1, 5):
+            e = emb[ctx - 1]
+            if bad_result(e):
+                continue
+            nrel += 1
+            if e["ctx"][0] != base["ctx"][ctx]:
+                rep.violation("verdict(%r, ctx %d)=%s but verdict(%r, data)=%s" % (
+                    show(c["in"]), ctx, base["ctx"][ctx], show(c["embeds"][ctx - 1]), e["ctx"][0]),
+                    {"kind": "xss.pair", "rel": "embed", "ctx": ctx, "a": c["in"], "b": c["embeds"][ctx - 1]})
+        for w, r in zip(c["prefixed"], pre):
+            if bad_result(r):
+                continue
+            nrel += 1
+            if r["ctx"][0] != base["ctx"][0]:
+                rep.violation("verdict(%r, data)=%s but with a '<'-free prefix, verdict(%r, data)=%s" % (
+                    show(c["in"]), base["ctx"][0], show(w), r["ctx"][0]),
+                    {"kind": "xss.pair", "rel": "prefix", "a": c["in"], "b": w})
+    rep.part("real", cases=len(cases), relations=nrel)
+    rep.cov["traces_validated_against_impl"] = nrel
+    rep.cov["evaluations"] = nrel
+    for c in cases[300:303]:
+        rep.sample({"in": show(c["in"]), "embed_ctx2": show(c["embeds"][1]), "spec_ctx_verdicts": c["pred"]})
+    rep.assumptions += ["relations checked real-vs-real (VerifXSSCtx = isXSS); the specification enumerates the cases and predicts"]
+    return rep.finish()
+
+
+@check("C15")
+def c15(tier, sc):
+    rep = Report("C15", tier, "model_checking")
+    vh = build_harness(sc)
+    tfile, _ = gen_tables(sc, vh)
+    d = stage_specs(sc, "c15", [tfile])
+    big = tier == "thorough"
+    S = vgen.b
+    tmpl = [[b for b in t if b not in (60, 61)] for t in xss_templates(200)]
+    cases = xss_props(sc, d, rep, "c15", "c15", S(">/'\"`!-?%[]\x00 a&#;x1:"), 4 if big else 3, templates=tmpl)
+    cases += xss_props(sc, d, rep, "c15attr", "c15", S(">/' a\"`"), 7 if big else 6)
+    inputs = [c["in"] for c in cases]
+    # sampled beyond: '<'/'='-free walks over the fragment list, scheme / event-name laden prose
+    r = vgen.rng("c15")
+    frags = [[b for b in f if b not in (60, 61)] for f in vgen.HTML_FRAGMENTS]
+    frags = [f for f in frags if f]
+    walks = list(vgen.walks(frags, r, 200000 if big else 20000, 1, 12))
+    inputs += walks
+    res = api_all(sc, vh, inputs)
+    n = 0
+    for x, rr in zip(inputs, res):
+        if bad_result(rr):
+            continue
+        n += 1
+        if rr["xss"]:
+            rep.violation("IsXSS(%r) = true although the input has no '<' and no '='" % show(x), {"kind": "xss.c15", "a": x})
+    rep.part("real", model_cases=len(cases), walks=len(walks), evaluated=n)
+    rep.cov["traces_validated_against_impl"] = n
+    rep.cov["evaluations"] = n
+    for x in inputs[5000:5003] + walks[:2]:
+        rep.sample(show(x))
+    return rep.finish()
+
+
+def c17_families(big):
+    S = vgen.b
+    return [
+        ("pct", S("%>a`\x00"), 7 if big else 5, [S("<%")]),
+        ("cdata", S("]>a["), 8 if big else 6, [S("<![CDATA[")]),
+        ("comment", S("-!>\x00a"), 7 if big else 5, [S("<!--")]),
+        ("bogus", S(">a-?"), 6 if big else 4, [S("<!"), S("<?"), S("<!a"), S("<!DOCTYPE"), S("<!doctype"), S("<!DocType ")]),
+        ("quoted", S("'\"`a> /"), 6 if big else 4, [S("<a b='"), S('<a b="'), S("<a b=`")]),
+    ]
+
+
+@check("C17")
+def c17(tier, sc):
+    rep = Report("C17", tier, "model_checking")
+    vh = build_harness(sc)
+    tfile, _ = gen_tables(sc, vh)
+    d = stage_specs(sc, "c17", [tfile])
+    big = tier == "thorough"
+    # (1) constructs end at the first terminator: TLC enumerates opener x body, computes the
+    # declarative terminator, predicts the construct token and the reduced input
+    cases = []
+    for name, alpha, maxlen, prefixes in c17_families(big):
+        cases += xss_props(sc, d, rep, "c17" + name, "c17", alpha, maxlen, prefixes=prefixes)
+    items = []
+    for c in cases:
+        items.append({"in": c["in"], "ctx": 0})
+        items.append({"in": c["reduced"], "ctx": 0})
+    res = vlib.harness_map(sc, vh, "xss-toks", items)
+    n1 = 0
+    for i, c in enumerate(cases):
+        a, b = res[2 * i], res[2 * i + 1]
+        if bad_result(a) or bad_result(b):
+            continue
+        n1 += 1
+        idx = c["idx"] - 1
+        toks = a["toks"] or []
+        ok = len(toks) > idx and toks[idx] == c["tok"]
+        if ok:
+            rest = toks[idx + 1:]
+            red = (b["toks"] or [])[idx + 1:]
+            shift = c["tok"][2]
+            ok = rest == [[t[0], t[1] + shift, t[2]] for t in red]
+        if not ok:
+            rep.violation("construct %s in %r: token must be %s (first terminator) and tokenizing must resume at %d; real tokens %s, reduced-input tokens %s" % (
+                c["kind"], show(c["in"]), c["tok"], c["resume"], toks[:6], (b["toks"] or [])[:6]),
+                {"kind": "xss.c17", "a": c["in"], "expect": c["tok"], "resume": c["resume"], "reduced": c["reduced"], "idx": c["idx"]})
+    rep.part("constructs.real", cases=len(cases), checked=n1)
+    # (2) range / order / count clauses on real token traces (monitor, no algorithm)
+    inputs = xss_inputs(tier, "c17")
+    inp = sc.path("c17-inputs.ndjson")
+    write_ndjson(inp, [{"in": x} for x in inputs])
+    tr = sc.path("c17-trace.ndjson")
+    run([vh, "xss-record", inp, tr], check=True, timeout=3000)
+    ev, ntr, rejects, st, gen = validate_traces(sc, d, "MonXss.tla", "MonXss.cfg", tr)
+    rep.cov["states"] += st
+    rep.cov["transitions"] += gen
+    rep.part("MonXss", events=ev, traces=ntr, rejected=len(rejects))
+    for rj in rejects:
+        if rj["reject"] == "panic":
+            continue         # C02
+        rep.violation("token stream of the real tokenizer breaks clause %s on %r ctx=%d: %s" % (
+            rj["reject"], show(rj["in"]), rj["ctx"], json.dumps(rj["impl"])),
+            {"kind": "xss.c17mon", "a": rj["in"], "ctx": rj["ctx"], "clause": rj["reject"], "impl": rj["impl"]})
+    rep.cov["traces_validated_against_impl"] = n1 + ntr
+    rep.cov["evaluations"] = n1 + ntr
+    for c in cases[100:103]:
+        rep.sample({"in": show(c["in"]), "kind": c["kind"], "expect_tok": c["tok"], "resume": c["resume"]})
     return rep.finish()
